@@ -9,6 +9,7 @@ pub mod c08;
 pub mod c08_tok;
 pub mod c08_order1;
 pub mod c08_aac;
+pub mod c08_fqz;
 pub mod c16;
 pub mod c16_fmtmodel;
 pub mod c16_more2;
